@@ -46,7 +46,8 @@ def main_src(rng, nmods):
             if ma == mb:
                 probes.append("%s.set(1000 + %d)\nout = append(out, [\"same\", %s.get() == %s.get(), %s.box == %s.box])\n%s.box[0] = 7\nout = append(out, [\"alias\", %s.box[0] == 7])" % (a, i, a, b, a, b, a, b))
     lines += probes
-    lines.append("b := import(\"vmod\")\nout = append(out, [\"builtin\", b.k, b.ns.n])\nb.k = 99\nb.ns.n = 98")
+    lines.append("b := import(\"vmod\")\nout = append(out, [\"builtin\", b.k, b.ns.n, len(b.empty), len(b.boxes.m), len(b.boxes.a[0]), len(b.ns.depth), len(b.boxes.sm.inner)])\n"
+                 "b.k = 99\nb.ns.n = 98\nb.empty.w = 1\nb.boxes.m.w = 2\nb.boxes.a[0].w = 3\nb.ns.depth.z = 4\nb.boxes.sm.inner.w = 5")
     lines.append("return [out, log]")
     return "\n".join(lines) + "\n"
 
